@@ -89,9 +89,19 @@ impl<'l, F: AsFd> Async<'l, F> {
         }
 
         // SAFETY: We are sure to deregister on drop.
-        unsafe {
-            inner.register(&dispatcher)?;
+        if let Err(err) = unsafe { inner.register(&dispatcher) } {
+            // Roll back: free the slot again and restore the blocking mode of the fd.
+            inner.kill(&dispatcher);
+            let _ = set_nonblocking(
+                #[cfg(unix)]
+                fd.as_fd(),
+                #[cfg(windows)]
+                fd.as_socket(),
+                was_nonblocking,
+            );
+            return Err(err);
         }
+        dispatcher.borrow_mut().is_registered = true;
 
         // Straightforward casting would require us to add the bound `Data: 'l` but we don't actually need it
         // as this module never accesses the dispatch data, so we use transmute to erase it
